@@ -152,6 +152,10 @@ Inductive op :=
 | OutResult (i : N) (b : bool)                     (* what output port i's WriteDMX returns from now on *)
 | SinkResult (c : N) (b : bool)                    (* what client c's SendDMX returns from now on *)
 | SetDMX (data : list N)                           (* Universe::SetDMX(DmxBuffer(data)) *)
+| ClientOther (c : N) (data : list N) (prio ts : N)
+                                                   (* Client::DMXReceived for ANOTHER universe id: the
+                                                      client's m_data_map entry of this universe, which
+                                                      is all SourceData(UniverseId()) reads, is untouched *)
 | AddOutput (i : N) | RemoveOutput (i : N)
 | AddSink (c : N) | RemoveSink (c : N)
 | SetPortPrio (i p : N)                            (* BasicInputPort::SetPriority *)
